@@ -33,8 +33,10 @@ func c16Closed(p unsafe.Pointer) int {
 	}
 	return 1
 }
-func c16ProbePackets(c chan *com.Packet) int { return c16Closed(*(*unsafe.Pointer)(unsafe.Pointer(&c))) }
-func c16ProbeSignal(c chan struct{}) int      { return c16Closed(*(*unsafe.Pointer)(unsafe.Pointer(&c))) }
+func c16ProbePackets(c chan *com.Packet) int {
+	return c16Closed(*(*unsafe.Pointer)(unsafe.Pointer(&c)))
+}
+func c16ProbeSignal(c chan struct{}) int { return c16Closed(*(*unsafe.Pointer)(unsafe.Pointer(&c))) }
 
 // VerifC16ProbeSelfTest validates the channel-header probe on channels whose status is known.
 func VerifC16ProbeSelfTest() bool {
